@@ -16,7 +16,7 @@ cp $DEMO $WT/$PKG/zz_demo_test.go
 NAMES=$(grep -o "^func Test[A-Za-z0-9_]*" $DEMO | sed 's/func //' | paste -sd'|')
 RUN="^($NAMES)\$"
 echo "== demo WITHOUT patch (must pass)"; rundemo; R0=$?
-git apply --3way $M/patch.diff 2>/dev/null || git apply $M/patch.diff || { echo "PATCH DOES NOT APPLY"; exit 3; }
+PATCH=$M/patch.diff; [ -f $M/patch.rebased.diff ] && PATCH=$M/patch.rebased.diff; git apply $PATCH 2>/dev/null || git apply --3way $PATCH || { echo "PATCH DOES NOT APPLY"; exit 3; }
 echo "== build"; go build ./cmd/keymasterd ./lib/... ./keymasterd/... ./eventmon/... 2>&1 | grep -v libudev | tail -3
 echo "== demo WITH patch (must fail)"; rundemo; R1=$?
 rm -f $WT/$PKG/zz_demo_test.go
